@@ -118,22 +118,25 @@ def _tmpdir():
         d = tempfile.mkdtemp(prefix='tsim-w%d-' % pid, dir=os.environ.get('TSIM_TMPROOT') or None)
         _TMP.clear()
         _TMP[pid] = d
-        # The process' working directory holds *other* files under the names the configurations use for their
-        # workflows (a path in a configuration is relative to the configuration file, not to the working directory)
-        try:
-            import json as _json
-            import networkx as _nx
-            for i_ in range(40):
-                g_ = _nx.DiGraph()
-                g_.add_node(0, comp=7)
-                with open(os.path.join(d, 'wf%d.json' % i_), 'w') as fp_:
-                    _json.dump({'header': {'decoy': True}, 'graph': _nx.node_link_data(g_)}, fp_)
-            os.chdir(d)
-        except Exception:
-            pass
+        _decoys(d)
         import atexit
         atexit.register(lambda p=d, me=pid: os.getpid() == me and shutil.rmtree(p, ignore_errors=True))
     return d
+
+
+def _decoys(d):
+    """The process' working directory holds *other* files under the names the configurations use for their
+    workflows (a path in a configuration is relative to the configuration file, not to the working directory)."""
+    try:
+        import networkx as _nx
+        for i_ in range(40):
+            g_ = _nx.DiGraph()
+            g_.add_node(0, comp=7)
+            with open(os.path.join(d, 'wf%d.json' % i_), 'w') as fp_:
+                json.dump({'header': {'decoy': True}, 'graph': _nx.node_link_data(g_)}, fp_)
+        os.chdir(d)
+    except Exception:
+        pass
 
 
 def case_digest(case):
@@ -277,9 +280,12 @@ def replay(path, quiet=False):
     with open(path) as fp:
         rp = json.load(fp)
     d = tempfile.mkdtemp(prefix='tsim-replay-')
+    cwd = os.getcwd()
+    _decoys(d)
     try:
         out = cases.exec_case(rp['case'], d)
     finally:
+        os.chdir(cwd)
         shutil.rmtree(d, ignore_errors=True)
         cases.close_helpers()
     sig = tuple(rp['signature'])
